@@ -191,13 +191,57 @@ class Pristine:
             self.p.kill()
 
 
-def run_job(spec):
+def run_support_batch(spec):
+    """Zero-free supports: one exploration per listed set of ballot lines, every line present at least once.  In the
+    ordinary universe a line with multiplicity 0 is still an element of E.ballots, which is invisible to code that only
+    sums multiplier*weight but not to code that depends on which ballot comes first or next in the list; here the list
+    the real code walks holds exactly the ballots of the concrete file."""
     t0 = time.time()
-    shims.install_count_shims(markers=bool(spec.get('markers')), summary=not spec.get('no_summary'))
+    budget = float(spec.get('budget_s', 600))
+    total = None
+    for k, support in enumerate(spec['supports']):
+        sub = dict(spec, lines=list(support), nozero=True, supports=None, budget_s=max(1.0, budget - (time.time() - t0)))
+        sub.pop('supports')
+        r = run_job(sub, setup=(k == 0))
+        for key in ('violations', 'harness_errors', 'mismatches'):
+            for item in r.get(key) or []:
+                item['subspec'] = sub
+        if total is None:
+            total = r
+            total['spec'] = spec
+            total['supports_done'] = 1
+            continue
+        total['supports_done'] += 1
+        for key in ('violations', 'harness_errors', 'mismatches', 'samples'):
+            total[key] = (total.get(key) or []) + (r.get(key) or [])
+        total['samples'] = total['samples'][:3]
+        total['validated'] += r['validated']
+        for kk, v in r['reach'].items():
+            total['reach'][kk] = total['reach'].get(kk, 0) + v
+        for kk, v in r['stats'].items():
+            if isinstance(v, (int, float)):
+                total['stats'][kk] = total['stats'].get(kk, 0) + v
+        for kk, v in (r.get('path_status') or {}).items():
+            total['path_status'][kk] = total['path_status'].get(kk, 0) + v
+        total['functions'] = sorted(set(total['functions']) | set(r['functions']))
+        if r['outcome'] != 'complete':
+            total['outcome'] = r['outcome']
+            break
+        if time.time() - t0 > budget:
+            total['outcome'] = 'budget'
+            break
+    total['wall_s'] = round(time.time() - t0, 2)
+    return total
+
+
+def run_job(spec, setup=True):
+    t0 = time.time()
+    if setup:
+        shims.install_count_shims(markers=bool(spec.get('markers')), summary=not spec.get('no_summary'))
     monitors = get_monitors(spec['monitors'])
     U = Universe(spec)
     lemma_fails = []
-    if not spec.get('no_summary'):
+    if setup and not spec.get('no_summary'):
         from harness import lemmas
         lemma_fails = lemmas.check_for([lemmas.effective_options(election_options(spec))])
     eng = core.Engine(timeout_ms=int(spec.get('query_timeout_ms', 20000)), max_branches=int(spec.get('max_branches', 20000)))
@@ -292,6 +336,18 @@ def run_job(spec):
             if not ok:
                 res['mismatches'].append(dict(mvals=conc['mvals'], tvals=conc['tvals'], symbolic=str(mine)[:600],
                                               concrete=str(rep)[:600]))
+                # The encoding and the implementation part ways on this input (always reported, exit 3).  If the REAL run
+                # on it breaks the property, that is a violation in its own right: evaluate the monitors on the
+                # pristine run and report what they say (found by replay, not by the solver; said so in the item).
+                if len(res['mismatches']) <= 3:
+                    rep2 = pristine.ask(dict(kind='monitor', spec=spec, mvals=conc['mvals'], tvals=conc['tvals'],
+                                             monitors=spec['monitors']))
+                    for k2 in rep2.get('keys') or []:
+                        if seen_keys.get(k2, 0) < int(spec.get('max_per_key', 2)):
+                            seen_keys[k2] = seen_keys.get(k2, 0) + 1
+                            res['violations'].append(dict(key=k2, mvals=conc['mvals'], tvals=conc['tvals'], replay=rep2,
+                                                          note='found while validating a path model against the implementation: '
+                                                               'the symbolic run and the real run diverge on this input, and the real run breaks the property'))
             if len(res['samples']) < 3 and npath[0] % 7 == 1:
                 res['samples'].append(dict(blt=U.concrete_text(conc['mvals'], conc['tvals']), options=election_options(spec),
                                            elected=sorted(c.cid for c in (ctx.E.elected or [])) if ctx.exc is None else None,
@@ -340,5 +396,5 @@ def run_job(spec):
 
 if __name__ == '__main__':
     spec = json.loads(sys.argv[1]) if len(sys.argv) > 1 else json.load(sys.stdin)
-    out = run_job(spec)
+    out = run_support_batch(spec) if spec.get('supports') else run_job(spec)
     sys.stdout.write('\n@@RESULT@@' + json.dumps(out) + '\n')
